@@ -739,6 +739,65 @@ const KNOWN_CASES: &[(&str, &str)] = &[
     ("neighbour", "^^5"),
 ];
 
+/// Entry point of the libFuzzer target `c03_lexer_source` (harness/vfuzz). Byte 0 selects the category-code table
+/// (the six tables of the exhaustive phase) and whether the text goes to the standalone lexer (differential against
+/// the model of TeX's lexer, token by token with traces) or - high bit set - to the VM oracle (category codes and
+/// \endlinechar changed mid-file); byte 1 selects the end-of-line character and the EOL-reporting flag.
+pub fn fuzz_one(data: &[u8], obs: &mut Obs) {
+    if data.len() < 2 {
+        return;
+    }
+    let Ok(src) = std::str::from_utf8(&data[2..]) else {
+        return;
+    };
+    if data[0] & 0x80 != 0 {
+        check_vm(obs, "fuzz-vm:", src);
+        return;
+    }
+    let table = gen::exh_table((data[0] % 6) as usize);
+    let elc = match data[1] % 5 {
+        0 => Some('\r'),
+        1 => None,
+        2 => Some('e'),
+        3 => Some(' '),
+        _ => Some('é'),
+    };
+    let case = Case {
+        src,
+        table: &table,
+        elc,
+        report_eol: data[1] & 0x40 != 0,
+        check_utf8: true,
+    };
+    check_standalone(obs, "fuzz:", &case);
+}
+
+/// Seed corpus for the libFuzzer target: generated standalone cases under each of the six tables and generated VM programs.
+pub fn fuzz_seeds() -> vcore::fuzzglue::Seeds {
+    let mut inputs: Vec<Vec<u8>> = vec![];
+    for k in 0..400u64 {
+        let mut rng = Rng::new(0xC03 + k);
+        let c = gen::random_case(&mut rng);
+        let mut v = vec![(k % 6) as u8, (k % 5) as u8 | if c.report_eol { 0x40 } else { 0 }];
+        v.extend_from_slice(c.src.as_bytes());
+        inputs.push(v);
+    }
+    for k in 0..200u64 {
+        let mut rng = Rng::new(0x3C0 + k);
+        let p = gen::random_vm_program(&mut rng);
+        let mut v = vec![0x80u8, 0];
+        v.extend_from_slice(p.as_bytes());
+        if v.len() <= 2048 {
+            inputs.push(v);
+        }
+    }
+    let dictionary = ["^^", "^^M", "^^@", "^^?", "^^5c", "^^7b", "\\catcode`", "\\endlinechar=", "\\par", "%", "\r\n", "é", "☃", "\\slurp"]
+        .iter()
+        .map(|s| s.to_string())
+        .collect();
+    vcore::fuzzglue::Seeds { inputs, dictionary }
+}
+
 fn exh_max_len(tier: Tier) -> u32 {
     match tier {
         Tier::Quick => 5,
